@@ -460,6 +460,19 @@ func (s *State) checkGuardID(id int, how string) {
 		r, _ := s.ghost["rheld/"+mk].(*Term)
 		held = (w != nil && w.val > 0) || (how == "read" && r != nil && r.val > 0)
 	}
+	if len(gi) > 4 { // GuardAlt: a plain mutex every writer holds as well
+		ap := gi[4].(Ptr)
+		altHeld := false
+		if st, ok := getPath(s.cell(ap.id), append(append([]int(nil), ap.path...), 0)).(*Term); ok {
+			altHeld = !(st.isConst() && st.val == 0)
+		}
+		if how == "read" {
+			held = held || altHeld
+		} else if held && !altHeld {
+			s.job.violation(s, fmt.Sprintf("lock discipline: write of %s without holding the update mutex its lock-free-of-the-RWMutex readers rely on", gi[1].(string)), where(s), nil)
+			return
+		}
+	}
 	if !held {
 		s.job.violation(s, fmt.Sprintf("lock discipline: %s of %s without holding its mutex", how, gi[1].(string)), where(s), nil)
 	}
